@@ -155,6 +155,11 @@ partial def loop (inp : IO.FS.Stream) (out : IO.FS.Stream) (st : Session.State) 
   else if (toks.headD "").startsWith "@" then
     out.putStrLn "@"        -- oracle-only request: executed on the real crate only
     loop inp out st
+  else if toks.headD "" == "oracle_only_session" then
+    -- the rest of this session uses something the model leaves out (e.g. the container's
+    -- case folding of non-ASCII letters): decided by the oracle on the real code only
+    out.putStrLn "UNMODELLED"
+    loop inp out st
   else
     match Session.step st toks with
     | some (st', r) =>
